@@ -68,6 +68,7 @@ Fixpoint val_repr (v : val) : val :=
   | VStr s => VStr s
   | VNone => VStr "None"
   | VBool b => VStr (if b then "True" else "False")
+  | VFlt n d => if d =? 1 then VStr (z_str n ++ ".0") else v     (* str(1.0) = '1.0'; other floats never reach the string branch *)
   | VTup l => VTup (map val_repr l)
   | x => x
   end.
@@ -214,9 +215,20 @@ Definition gres_same (obs spec : res (list (option val * list row))) : bool := r
 Definition apply_of (all : list row) (gs : list (option val * list row)) : list (option val) * list val :=
   (map fst gs, map (fun g => bitmask all (snd g)) gs).
 
+(* the result index must have unique labels (under ==): two groups whose keys are equal -- possible only on the string
+   branch, e.g. 1 and True -- make Series.from_items raise *)
+Fixpoint okeys_nodup (l : list (option val)) : bool :=
+  match l with
+  | [] => true
+  | k :: t => negb (existsb (okey_eqb k) t) && okeys_nodup t
+  end.
+
 Definition M_apply_api (all : list row) (gs : res (list (option val * list row)))
   : res (list (option val) * list val) :=
-  match gs with Err e => Err e | Ok g => Ok (apply_of all g) end.
+  match gs with
+  | Err e => Err e
+  | Ok g => if okeys_nodup (map fst g) then Ok (apply_of all g) else Err "ErrorInitIndex"
+  end.
 
 Definition S_apply_api (all : list row) (gs : res (list (option val * list row)))
   : res (list (option val) * list val) :=
